@@ -19,7 +19,7 @@ from ..runner import CaseResult, digest
 from .. import sexp
 
 ID = "C04"
-RULE = ("domains: strips (7 calls), numeric (6 calls), cond (25 calls); all plans over the calls of a domain up to length "
+RULE = ("domains: strips (10 calls), numeric (6 calls), cond (25 calls); all plans over the calls of a domain up to length "
         "L (quick: 4,4,2; thorough: 5,5,3), executed in 4 modes + 3 plan-file layouts (as is, UPPER CASE with extra blanks, "
         "no final newline); one case = one (domain, first two steps) prefix family. states = distinct reference states "
         "reached; transitions = steps compared. non-trivial = a plan that mixes applicable and inapplicable steps")
